@@ -21,6 +21,7 @@ class Ctx:
         self.b = builder
         self.results = results if results is not None else {}
         self.hits = {}
+        self.kept = {}        # result OBJECTS the caller keeps (returned angles, hit results, danger spaces) by op index
 
     def arg(self, spec):
         """[v, unit] -> quantity; {"bare": x, "slot": s} -> x (bare number); {"ref": k} -> shared instance; None"""
@@ -48,6 +49,13 @@ _sinks = {}
 
 
 def perform(op, ctx):
+    res = _perform(op, ctx)
+    if op.get("op") in ("fire", "zero", "elev", "danger", "at_dist", "fire_tmp") and op.get("_idx") is not None:
+        ctx.kept[op["_idx"]] = res
+    return res
+
+
+def _perform(op, ctx):
     pb = lib.pb
     k = op["op"]
     b = ctx.b
@@ -62,6 +70,10 @@ def perform(op, ctx):
         hit = b.calc(op["calc"]).fire(b.shot(op["shot"]), ctx.arg(op["range"]), **kw)
         ctx.hits[op.get("_idx")] = hit
         return hit
+    if k == "reread":
+        # the caller looks again at a result object it was given earlier: it must still say what it said then
+        obj = ctx.kept.get(op["src"])
+        return obj if obj is not None else "<nothing kept: the operation it refers to did not complete>"
     if k == "retag":
         # the caller converts the DISPLAY unit of a quantity held by a pool object (q << unit): legal at any time, on
         # shared objects too - display units are free and must not influence any result
